@@ -54,6 +54,7 @@ type frameCase struct {
 	Cons  []consumerSpec    `json:"cons"`
 	C1    int64             `json:"c1"`
 	Op    []json.RawMessage `json:"op"`
+	Diff  int64             `json:"diff"` // 1: differential non-interference case (see runFrameDiff)
 }
 
 const unbonding = 1000 * time.Second
@@ -391,8 +392,10 @@ func (d *fdrv) snapshot(c int64) string {
 	p("qinfra", qi.String(), e10 == nil)
 	ut, e11 := K.GetConsumerInfractionUpdateTime(ctx, id)
 	p("qinfratime", ut.UnixNano(), e11 == nil)
-	al, e12 := K.GetConsumerRewardsAllocationByDenom(ctx, id, "stake")
-	p("alloc", al.String(), e12 == nil)
+	for _, denom := range d.rewardDenoms() {
+		al, e12 := K.GetConsumerRewardsAllocationByDenom(ctx, id, denom)
+		p("alloc", denom, al.String(), e12 == nil)
+	}
 	return b.String()
 }
 
@@ -482,7 +485,10 @@ func (d *fdrv) advanceTo(t time.Time) {
 }
 
 // apply executes the operation on consumer c1 and returns 0 ok / 1 error / 100 panic.
-func (d *fdrv) apply() int64 {
+// With skip (run B of a differential case) the operation is left out: a message is not delivered at all; the
+// BeginBlock of a launch (kind 7) still runs at the same time, but with the opposite CreateClient outcome, so
+// that both runs have the same block structure and differ only in what happened to c1.
+func (d *fdrv) apply(skip bool) int64 {
 	env, c1 := d.env, d.k.C1
 	id := cid(c1)
 	op := d.k.Op
@@ -494,6 +500,9 @@ func (d *fdrv) apply() int64 {
 		case r.Err != nil:
 			return 1
 		}
+		return 0
+	}
+	if skip && kind != 7 {
 		return 0
 	}
 	switch kind {
@@ -551,7 +560,7 @@ func (d *fdrv) apply() int64 {
 			return 1
 		}
 		d.advanceTo(ip.SpawnTime)
-		if num(op[1]) != 0 {
+		if (num(op[1]) != 0) != skip {
 			d.w.FailAlways["client.CreateClient"] = true
 		}
 		r := env.BeginBlock()
@@ -594,22 +603,50 @@ func (d *fdrv) apply() int64 {
 	panic(fmt.Sprintf("unknown op %d", kind))
 }
 
-func runFrame(t *testing.T, raw json.RawMessage) (common.T, common.T) {
-	var k frameCase
-	if err := json.Unmarshal(raw, &k); err != nil {
-		panic(err)
-	}
+func prepare(t *testing.T, k frameCase) *fdrv {
 	w := common.NewWorld(k.NVals)
 	w.Unbonding = unbonding
 	env := common.NewProviderEnv(t, w)
 	params := providertypes.DefaultParams()
 	params.BlocksPerEpoch = 2
+	params.NumberOfEpochsToStartReceivingRewards = 1
 	env.InitGenesis(params)
 	d := &fdrv{env: env, w: w, k: k, spec: map[int64]*consumerSpec{}}
-	for i := range k.Cons {
-		d.spec[k.Cons[i].ID] = &k.Cons[i]
+	for i := range d.k.Cons {
+		d.spec[d.k.Cons[i].ID] = &d.k.Cons[i]
 	}
 	d.setup()
+	return d
+}
+
+// diffStores reports the keys whose value differs between two dumps as model changes + Go-side attributes.
+func diffStores(a, b map[string]string) (changes, attrs []common.T) {
+	changes, attrs = []common.T{}, []common.T{}
+	for _, key := range common.DiffStores(a, b) {
+		kb := []byte(key)
+		kind := keyKind(kb)
+		va, oka := a[key]
+		vb, okb := b[key]
+		changes = append(changes, common.L(bytesT(kb), idsOfValue(kind, va, oka), idsOfValue(kind, vb, okb)))
+		if owner, ok := decodeOwner(kb); ok {
+			attrs = append(attrs, common.L(kind, common.L(bytesT(owner))))
+		} else {
+			attrs = append(attrs, common.L(kind, common.L()))
+		}
+	}
+	return
+}
+
+func runFrame(t *testing.T, raw json.RawMessage) (common.T, common.T) {
+	var k frameCase
+	if err := json.Unmarshal(raw, &k); err != nil {
+		panic(err)
+	}
+	if k.Diff != 0 {
+		return runFrameDiff(t, k)
+	}
+	d := prepare(t, k)
+	env := d.env
 
 	total := k.N
 	if num(k.Op[0]) == 12 {
@@ -620,23 +657,8 @@ func runFrame(t *testing.T, raw json.RawMessage) (common.T, common.T) {
 	for c := int64(0); c < total; c++ {
 		snapBefore[c] = d.snapshot(c)
 	}
-	code := d.apply()
-	after := env.DumpStore()
-
-	changes := []common.T{}
-	attrs := []common.T{}
-	for _, key := range common.DiffStores(before, after) {
-		kb := []byte(key)
-		kind := keyKind(kb)
-		vb, okb := before[key]
-		va, oka := after[key]
-		changes = append(changes, common.L(bytesT(kb), idsOfValue(kind, vb, okb), idsOfValue(kind, va, oka)))
-		if owner, ok := decodeOwner(kb); ok {
-			attrs = append(attrs, common.L(kind, common.L(bytesT(owner))))
-		} else {
-			attrs = append(attrs, common.L(kind, common.L()))
-		}
-	}
+	code := d.apply(false)
+	changes, attrs := diffStores(before, env.DumpStore())
 	semantic := []common.T{}
 	for c := int64(0); c < total; c++ {
 		if d.snapshot(c) != snapBefore[c] {
@@ -645,5 +667,99 @@ func runFrame(t *testing.T, raw json.RawMessage) (common.T, common.T) {
 	}
 	input := common.L(3, common.L(bytesT([]byte(cid(k.C1))), changes))
 	obs := common.L(attrs, semantic, code)
+	return input, obs
+}
+
+// ---------------------------------------------------------------- differential non-interference
+
+func ibcDenom(x int64) string { return "ibc/" + fmt.Sprintf("%064X", x) }
+
+// rewardDenoms: a governance-allowlisted denom, a denom nobody allowlists, the denom each listed consumer may
+// allowlist at creation, and the denoms a MsgUpdateConsumer of c1 may allowlist.
+func (d *fdrv) rewardDenoms() []string {
+	out := []string{"govdenom", "stake"}
+	for i := range d.k.Cons {
+		out = append(out, ibcDenom(d.k.Cons[i].ID+1))
+	}
+	return append(out, ibcDenom(1001), ibcDenom(1002))
+}
+
+// allocate gives every listed consumer that has (or had) an IBC client a reward allocation in every denom and
+// funds the rewards pool generously (a shortage of the shared pool is not what is being tested).
+func (d *fdrv) allocate(round int64) {
+	ctx, K := d.env.Ctx, d.env.K
+	K.SetConsumerRewardDenom(ctx, "govdenom")
+	fund := sdk.Coins{}
+	for j, denom := range d.rewardDenoms() {
+		for i := range d.k.Cons {
+			s := &d.k.Cons[i]
+			amt := 1000*round + 7*s.ID + int64(j) + 1
+			if err := K.SetConsumerRewardsAllocationByDenom(ctx, cid(s.ID), denom,
+				providertypes.ConsumerRewardsAllocation{Rewards: sdk.NewDecCoins(sdk.NewDecCoin(denom, math.NewInt(amt)))}); err != nil {
+				panic(err)
+			}
+		}
+		fund = fund.Add(sdk.NewCoin(denom, math.NewInt(1_000_000)))
+	}
+	d.w.Fund(providertypes.ConsumerRewardsPool, fund)
+}
+
+// block runs one provider block: BeginBlock, an optional validator power change, EndBlock.
+func (d *fdrv) block(dt time.Duration, bump int) int64 {
+	code := int64(0)
+	note := func(r common.Result) {
+		if r.Panic != nil {
+			code = 100
+		} else if r.Err != nil && code == 0 {
+			code = 1
+		}
+	}
+	d.env.NextBlock(dt)
+	note(d.env.BeginBlock())
+	if bump >= 0 {
+		v := d.val(int64(bump))
+		v.Tokens = v.Tokens.AddRaw(3 * common.PowerReduction)
+		d.w.StakingEndBlock()
+	}
+	_, r := d.env.EndBlock()
+	note(r)
+	return code
+}
+
+// continuation: what the chain does after the operation, identical in both runs.
+func (d *fdrv) continuation() int64 {
+	code := int64(0)
+	d.allocate(1)
+	code += d.block(5*time.Second, 1)  // reward distribution (validators not yet eligible), EndBlock
+	code += d.block(5*time.Second, -1) // one of these two EndBlocks closes an epoch
+	d.allocate(2)
+	code += d.block(unbonding+10*time.Second, 2) // removal of stopped consumers, queued infraction parameters, pruning
+	code += d.block(5*time.Second, -1)
+	return code
+}
+
+// runFrameDiff: the same setup on two independent environments, A with the operation on c1 and B without it,
+// then the same continuation on both.  Every key attributed to a consumer other than c1, every time-queue /
+// reverse-index entry as far as other consumers are concerned, and the getter-level state of every other
+// consumer must be identical in A and B.  Provider-wide keys (slash meter, vsc ids, ...) are not compared.
+func runFrameDiff(t *testing.T, k frameCase) (common.T, common.T) {
+	a, b := prepare(t, k), prepare(t, k)
+	codeA := a.apply(false)
+	b.apply(true)
+	contA := a.continuation()
+	contB := b.continuation()
+	changes, attrs := diffStores(b.env.DumpStore(), a.env.DumpStore())
+	total := k.N
+	if num(k.Op[0]) == 12 {
+		total = k.N + 1
+	}
+	semantic := []common.T{}
+	for c := int64(0); c < total; c++ {
+		if a.snapshot(c) != b.snapshot(c) {
+			semantic = append(semantic, bytesT([]byte(cid(c))))
+		}
+	}
+	input := common.L(5, common.L(bytesT([]byte(cid(k.C1))), changes))
+	obs := common.L(attrs, semantic, codeA, contA, contB)
 	return input, obs
 }
